@@ -236,7 +236,9 @@ theorem wrap_flat (names : List Named) (p : Program) :
     simp only [wrap, List.flatMap_cons]
     split
     · rename_i hc
-      have : toks = [] := by simpa using hc
+      have : toks = [] := by
+        simp only [Bool.and_eq_true, List.isEmpty_iff] at hc
+        exact hc.1
       subst this
       simpa using hrest
     · simp [nsPath, commonPrefix, hrest]
